@@ -13,7 +13,7 @@ import (
 )
 
 // callees assumed to have no effect on modelled memory / ghost state and not to panic
-var pureCallee = regexp.MustCompile(`(\.String$|\.Error$|\.Logger$|\.EventManager$|\.GoString$|POSHooks\.|\.Codespace$|\.WithEventManager$|\.Events$)|^(fmt\.|errors\.|strings\.|strconv\.|\*?types\.(New)?Err|types\.newError|\*?types\.sdkError\.|types\.Err[A-Z]|x/[a-z]+/types\.Err[A-Z]|x/[a-z]+/types\.Codespace|\*?github\.com/tendermint/tendermint/libs/log\.|\*?github\.com/tendermint/tendermint/libs/common\.|\*?github\.com/pkg/errors\.|types\.NewEvent|types\.NewAttribute|\*?types\.EventManager\.|types\.Events\.|types\.Event\.|log\.|os\.Exit|time\.Now|\*?bytes\.Buffer\.)`)
+var pureCallee = regexp.MustCompile(`(\.String$|\.Error$|\.Logger$|\.EventManager$|\.GoString$|POSHooks\.|\.Codespace$|\.WithEventManager$|\.ConsensusParams$|\.PubKey$|CheckConsensusPubKey$|\.Events$)|^(fmt\.|errors\.|strings\.|strconv\.|\*?types\.(New)?Err|types\.newError|\*?types\.sdkError\.|types\.Err[A-Z]|x/[a-z]+/types\.Err[A-Z]|x/[a-z]+/types\.Codespace|\*?github\.com/tendermint/tendermint/libs/log\.|\*?github\.com/tendermint/tendermint/libs/common\.|\*?github\.com/pkg/errors\.|types\.NewEvent|types\.NewAttribute|\*?types\.EventManager\.|types\.Events\.|types\.Event\.|log\.|os\.Exit|time\.Now|\*?bytes\.Buffer\.)`)
 
 func (fr *frame) calleeKey(c *ssa.CallCommon) (string, *ssa.Function) {
 	if c.IsInvoke() {
